@@ -706,22 +706,26 @@ Definition wrap_all (c : gctx) (mk : nat -> wrapper) (subs : list osub) : list o
   flat_map (fun is => map (fun m => {| oi_label := Neg; oi_via := mk (fst is); oi_sub := Some m |})
                           (cover_sub (with_negative_ctx c) (snd is)))
            (enumerate_from 0 subs).
-Definition object_key_negatives (c : gctx) (k : okey) : list oitem :=
+(* template_ok = the foreign draw of the template object (ctx.generate_from_schema of
+   _get_template_schema) succeeds; when it raises Unsatisfiable the key is abandoned (_ignore_unfixable) *)
+Definition object_key_negatives (c : gctx) (template_ok : bool) (k : okey) : list oitem :=
   match k with
-  | OKProperties subs => wrap_all c WProperty subs
-  | OKPatternProperties subs => wrap_all c WPatternProperty subs
+  | OKProperties subs => if template_ok then wrap_all c WProperty subs else []
+  | OKPatternProperties subs => if template_ok then wrap_all c WPatternProperty subs else []
   | OKItems sub => map (fun m => {| oi_label := Neg; oi_via := WItems; oi_sub := Some m |}) (cover_sub (with_negative_ctx c) sub)
-  | OKRequired n => map (fun i => {| oi_label := Neg; oi_via := WRequired i; oi_sub := None |}) (seq 0 n)
-  | OKAdditional a => if addl_falsy a then [{| oi_label := Neg; oi_via := WAdditional; oi_sub := None |}] else []
+  | OKRequired n => if template_ok then map (fun i => {| oi_label := Neg; oi_via := WRequired i; oi_sub := None |}) (seq 0 n) else []
+  | OKAdditional a => if addl_falsy a && template_ok then [{| oi_label := Neg; oi_via := WAdditional; oi_sub := None |}] else []
   end.
 (* the negative block of cover_schema_iter restricted to these keys (coverage.py:340) *)
-Definition object_negatives (c : gctx) (keys : list okey) : list oitem :=
-  if snd c then flat_map (object_key_negatives c) keys else [].
+Definition object_negatives (c : gctx) (template_ok : bool) (keys : list okey) : list oitem :=
+  if snd c then flat_map (object_key_negatives c template_ok) keys else [].
 
 (* _positive_object (coverage.py:728-745): the sizes of the objects built by dropping optional
    properties; r = number of required properties, o = number of optional ones *)
 Inductive osize_desc := OOneOptional | OSubset | OOnlyRequired.
-Definition object_subset_sizes (r o : nat) : list (osize_desc * nat) :=
-  (if Nat.eqb o 1 then [] else map (fun _ => (OOneOptional, (r + 1)%nat)) (seq 0 o))   (* combo != template *)
+(* extra = the template drawn by the foreign generator holds keys beyond the declared properties
+   (possible when minProperties / additional properties make from_schema add some) *)
+Definition object_subset_sizes (r o : nat) (extra : bool) : list (osize_desc * nat) :=
+  (if Nat.eqb o 1 && negb extra then [] else map (fun _ => (OOneOptional, (r + 1)%nat)) (seq 0 o))   (* combo != template *)
   ++ map (fun size => (OSubset, (r + size)%nat)) (seq 2 (o - 2))                          (* select_combinations *)
   ++ (if Nat.eqb o 0 then [] else [(OOnlyRequired, r)]).                                  (* set(properties) != required *)
